@@ -185,7 +185,21 @@ pub async fn on_did_close_document(
     if module_info.is_none() {
         drop(analysis);
         let mut mut_analysis = context.analysis().write().await;
-        mut_analysis.remove_file_by_uri(uri);
+        // the look above was taken under the read lock: a workspace reload may have loaded the
+        // document from disk as a workspace file since. It is dropped only if it still belongs to
+        // no workspace now that nothing else can change the analysis.
+        let still_orphan = match mut_analysis.get_file_id(uri) {
+            Some(file_id) => mut_analysis
+                .compilation
+                .get_db()
+                .get_module_index()
+                .get_module(file_id)
+                .is_none(),
+            None => false,
+        };
+        if still_orphan {
+            mut_analysis.remove_file_by_uri(uri);
+        }
         drop(mut_analysis);
 
         if !lsp_features.supports_pull_diagnostic() {
